@@ -30,9 +30,10 @@ RULE = ('one evaluation = one seeded run: 4-20 values drawn from the picklable d
         'the fault batch one file-system call of the store fails or the source stream raises; oracle: type-and-structure equality, or '
         'an exception and no trace of the key; non-trivial = at least one file-backed value round-tripped; distinct = SHA-256 of the case')
 RULE += ' ' + 'Value files opened unbuffered accept at most 4096 bytes per write() call (a short write, reported in the return value).'
+RULE += ' ' + 'JSONDisk runs end with values JSON cannot represent (bytes, sets, complex, dates, Decimals): rejected without a trace or read back unchanged.'
 ASSUMPTIONS = ['this property is mostly a function of the input; the simulator contributes the stream, fault and restart dimensions, the value sweep is generative differential testing on the same runs',
                'JSONDisk is exercised with JSON-stable values only (no tuples, no byte strings, no streams)']
-PROBES = ('file_backed', 'stream_values', 'short_reads', 'rejected_values', 'restart_reads', 'oserr', 'chunk_boundary', 'shared_or_cyclic_values', 'real_file_streams', 'returned_value_mutated')
+PROBES = ('file_backed', 'stream_values', 'short_reads', 'rejected_values', 'restart_reads', 'oserr', 'chunk_boundary', 'shared_or_cyclic_values', 'real_file_streams', 'returned_value_mutated', 'json_rejections')
 TECHNIQUE = 'deterministic simulation of the storage path (seeded short reads, injected file-system and stream errors, simulated restart) + generative round-trip comparison over the value domain'
 LEVEL_TEXT = ('seeded exploration of values x thresholds x serializer settings x store/read paths, with the I/O side under the simulator '
               '(streams that return short reads, one failing file-system call, process restart between write and read); round trips are '
@@ -407,6 +408,29 @@ def run_case(case):
             problems, empties, info = audit(d)
             if problems and not violations:
                 bad('audit', ','.join(sorted({p[0] for p in problems})), '%s (faults %s)' % (problems[:3], case.get('faults')))
+        if cfg['json'] and not violations and not case.get('faults'):
+            # JSONDisk and values JSON cannot carry: rejected with an exception and no trace of the key - or stored and read
+            # back as they were; never stored as something else
+            import datetime
+            import decimal
+            c = state['cache']
+            for i, v in enumerate((b'raw bytes', {1, 2, 3}, complex(1, 2), datetime.date(2020, 2, 29), decimal.Decimal('1.50'),
+                                   {'nested': [1, b'x']}, [1, {2, 3}])):
+                k = 'not-json-%d' % i
+                for how in ('set', 'add'):
+                    try:
+                        getattr(c, how)(k, v)
+                    except Exception:  # noqa
+                        if k in c:
+                            bad('rejected-value-left-a-trace', how, 'key %r present after %s(%r) raised' % (k, how, v))
+                        probes['json_rejections'] = probes.get('json_rejections', 0) + 1
+                        continue
+                    got = c.get(k)
+                    if type(got) is not type(v) or got != v:
+                        bad('value-altered', 'jsondisk-not-representable:' + how, 'stored %r through %s under JSONDisk, read back %r' % (v, how, got))
+                    c.delete(k)
+                if violations:
+                    break
         state['cache'].close()
         state['dq'].cache.close()
         state['ix'].cache.close()
